@@ -42,3 +42,25 @@ Definition min_be (z : Z) : bytes := (* big-endian without leading zero octets *
 Definition enc_rsa_key (exponent : Z) (modulus_bytes : bytes) : bytes :=
   let e := min_be exponent in
   (if zlen e <=? 255 then enc_uint 1 (zlen e) else enc_uint 1 0 ++ enc_uint 2 (zlen e)) ++ e ++ modulus_bytes.
+
+(* RFC 6605 4: "ECDSA public keys consist of a single value, called "Q" in FIPS 186-3. In DNSSEC keys, Q is a simple bit
+   string that represents the uncompressed form of a curve point, "x | y"": 2 x 32 octets on curve P-256 for algorithm 13,
+   2 x 48 octets on curve P-384 for algorithm 14.  RFC 8080 3: 32 octets (Ed25519, algorithm 15), 57 octets (Ed448, 16). *)
+Definition ecdsa_size (alg : Z) : option nat :=
+  if alg =? 13 then Some 32%nat else if alg =? 14 then Some 48%nat else None.
+Definition enc_ecdsa_key (alg x y : Z) : option bytes :=
+  let? n := ecdsa_size alg in
+  if (0 <=? x) && (x <? 256 ^ Z.of_nat n) && (0 <=? y) && (y <? 256 ^ Z.of_nat n) then Some (be_enc n x ++ be_enc n y) else None.
+Definition dec_ecdsa_key (alg : Z) (k : bytes) : option (Z * Z) :=
+  let? n := ecdsa_size alg in
+  if zlen k =? 2 * Z.of_nat n then Some (be_val (firstn n k), be_val (skipn n k)) else None.
+Definition eddsa_size (alg : Z) : option Z := if alg =? 15 then Some 32 else if alg =? 16 then Some 57 else None.
+Definition enc_eddsa_key (alg : Z) (k : bytes) : option bytes :=
+  let? n := eddsa_size alg in if zlen k =? n then Some k else None.
+(* the curve an ECDSA algorithm number stands for, by the arcs of its object identifier: P-256 is secp256r1 / prime256v1
+   (1.2.840.10045.3.1.7), P-384 is secp384r1 (1.3.132.0.34) *)
+Definition ecdsa_curve_oid (alg : Z) : option (list Z) :=
+  if alg =? 13 then Some [1; 2; 840; 10045; 3; 1; 7] else if alg =? 14 then Some [1; 3; 132; 0; 34] else None.
+(* RFC 4034 2.1 read back: flags, protocol, algorithm, key *)
+Definition dec_dnskey (b : bytes) : option (Z * Z * Z * bytes) :=
+  let? (f, r1) := dec_uint 2 b in let? (p, r2) := dec_uint 1 r1 in let? (a, r3) := dec_uint 1 r2 in Some (f, p, a, r3).
